@@ -914,6 +914,9 @@ func (e *Engine) ropeSlice(in *ssa.Slice, r *Rope, fr *frame, d *dinstr) Value {
 		if sg.R != nil {
 			val := Eval(sg.R, m, map[uint32]uint64{})
 			e.addPC(st.Eq(sg.R, st.BV(val, 32)))
+			if sg.R.Op == OpVar {
+				e.bound[sg.R.Name] = val
+			}
 			b.WriteRune(rune(int32(val)))
 		} else {
 			b.WriteString(sg.S)
